@@ -181,6 +181,41 @@ pub fn run_exit_contract(
                 );
                 return out;
             }
+        } else if let Some(rest) = kind.strip_prefix("codes+cap:") {
+            // `-w <codes> -e N`: the messages with a listed code, at most N of them. When the whole
+            // input fits one reader batch every error is collected whatever the schedule, so the
+            // display is exactly the first N messages (by position) that carry a listed code.
+            let (list, nstr) = rest.rsplit_once(':').unwrap_or((rest, "0"));
+            let cap: usize = nstr.parse().unwrap_or(usize::MAX);
+            let codes: Vec<&str> = list.split_whitespace().collect();
+            if fatal0 {
+                continue;
+            }
+            let listed: Vec<&str> = shown0
+                .iter()
+                .filter(|m| m.codes.first().map_or(false, |c| codes.contains(&c.trim_start_matches('E'))))
+                .map(|m| m.text.as_str())
+                .collect();
+            let got: Vec<&str> = shown.iter().map(|m| m.text.as_str()).collect();
+            let single_batch = itsgen::walker::walk(&spec.input).pkts.len() <= 100;
+            let ok = if single_batch {
+                got == listed.iter().take(cap).copied().collect::<Vec<_>>()
+            } else {
+                got.len() <= cap && got.iter().all(|g| listed.contains(g))
+            };
+            if !ok {
+                out.fail = fail(
+                    "code-filter-with-cap",
+                    format!(
+                        "-w {list} -e {cap}: {} messages shown; {} of the {} unfiltered messages carry a listed code (expected the first {} of them) [cmd: {cmd}]",
+                        got.len(),
+                        listed.len(),
+                        shown0.len(),
+                        listed.len().min(cap)
+                    ),
+                );
+                return out;
+            }
         } else if let Some(nstr) = kind.strip_prefix("cap:") {
             let cap: usize = nstr.parse().unwrap_or(usize::MAX);
             if shown.len() > cap {
